@@ -14,7 +14,12 @@
     * `C17_worker_no_panic`: the worker survives a step unless `now + ttl` of a queued put, or the `i64` arithmetic of a
       queued weight update, overflows: `C17_counterexample_worker_time_overflow`,
       `C17_counterexample_worker_weight_overflow` (all five counterexamples are reached from the initial state by API
-      calls with valid arguments);
+      calls with valid arguments) — and, for a queued put, provided the weight accounting is in order (`Adm.Sound`: the
+      total is the sum of the positive charges, total and capacity are non-negative `i64`s): `is_space_available_for`
+      computes `max_weight - weight_used` in `i64`, and `C17_counterexample_worker_space_overflow` shows a NEGATIVE total
+      under capacity `i64::MAX` killing the worker there. No run of Layer A reaches a negative total
+      (`C17_adm_sound_of_inv`: every state satisfying the Layer A invariant is sound); at action granularity known finding
+      D10 does (`LayerB/NoPanic.lean`, `C17_layerB_space_overflow_needs_negative_total`);
     * `C17_dead_worker_consequences`: a dead worker stays dead, its step is never enabled again (so the
       acknowledgements of commands it had not executed stay pending, as in the counterexamples), every later send fails;
     * `C17_sweeper_consumer_never_panic`, `C17_no_sketch_panic`: the sweeper has no panic site; the consumer and the
@@ -22,6 +27,7 @@
     * `C17_step_no_panic`, `C17_run_no_panic`: the summary over all events of the model, and over sequences of them.
 -/
 import CachedProofs.Lemmas.Upsert
+import CachedProofs.Lemmas.Inv
 import CachedProofs.Properties.G17
 
 namespace Cached
@@ -279,11 +285,17 @@ theorem C17_counterexample_weight_overflow_caller :
 
 /-- **The worker survives a step** (no `.workerPanic`, `worker` does not become `.dead`) provided: if the head command
     is a put with time-to-live, `now + ttl` is representable (it is evaluated at the worker's clock); if it is a weight
-    update of a charged id, neither the difference to the old weight nor the new total overflows `i64`. -/
+    update of a charged id, neither the difference to the old weight nor the new total overflows `i64`; if it is a put
+    (with or without time-to-live), the weight accounting is in order (`Adm.Sound`), so that no total `maybe_add` passes
+    through is negative and `max_weight - weight_used` stays inside `i64`.
+    STATEMENT CHANGED (hypotheses `hsp`, `hspT`): `is_space_available_for` panics on `i64` overflow
+    (`C17_counterexample_worker_space_overflow`); every state of a Layer A run meets them (`C17_adm_sound_of_inv`). -/
 theorem C17_worker_no_panic (s s' : State) (o o' : Oracle) (out : Out)
     (hput : ∀ id hash w k v t h q, s.queue = (.putTtl id hash w k v t, h) :: q → ∃ x, addTime s.now t = some x)
     (hupd : ∀ id w h q wk, s.queue = (.updateWeight id w, h) :: q → s.adm.kw.get? id = some wk →
       inI64 (w - wk.weight) = true ∧ inI64 (s.adm.used + (w - wk.weight)) = true)
+    (hsp : ∀ id hash w k v h q, s.queue = (.put id hash w k v, h) :: q → s.adm.Sound)
+    (hspT : ∀ id hash w k v t h q, s.queue = (.putTtl id hash w k v t, h) :: q → s.adm.Sound)
     (h : workerStep s o = .ok (s', out, o')) :
     (∀ p, out ≠ .workerPanic p) ∧ (∀ p, out ≠ .panic p) ∧ s'.worker ≠ .dead := by
   cases hw : s.worker with
@@ -312,7 +324,8 @@ theorem C17_worker_no_panic (s s' : State) (o o' : Oracle) (out : Out)
         split at h
         · rename_i r hr
           obtain ⟨r, o1⟩ := r
-          obtain ⟨hdone, hwk⟩ := workerPut_done (by intro t ht; cases ht) hr
+          obtain ⟨hdone, hwk⟩ := workerPut_done (s := { s with queue := q }) (by intro t ht; cases ht)
+            (fun res hres => maybeAdd_no_overflow (a := s.adm) (hsp _ _ _ _ _ _ _ hq) hres) hr
           obtain ⟨h1, h2, h3⟩ := workerFinish_done hdone h
           exact ⟨h1, h2, by rw [h3, hwk, hrun]; simp⟩
         · cases h
@@ -322,7 +335,8 @@ theorem C17_worker_no_panic (s s' : State) (o o' : Oracle) (out : Out)
         · rename_i r hr
           obtain ⟨r, o1⟩ := r
           obtain ⟨hdone, hwk⟩ := workerPut_done (s := { s with queue := q })
-            (by intro t' ht; cases ht; exact hput _ _ _ _ _ _ _ _ hq) hr
+            (by intro t' ht; cases ht; exact hput _ _ _ _ _ _ _ _ hq)
+            (fun res hres => maybeAdd_no_overflow (a := s.adm) (hspT _ _ _ _ _ _ _ _ hq) hres) hr
           obtain ⟨h1, h2, h3⟩ := workerFinish_done hdone h
           exact ⟨h1, h2, by rw [h3, hwk, hrun]; simp⟩
         · cases h
@@ -366,6 +380,35 @@ theorem C17_counterexample_worker_weight_overflow :
     ∃ s2, step c17Full .worker {} = .ok (s2, .workerPanic .weightOverflow, {}) ∧
       s2.worker = .dead ∧ s2.acks[2]? = some .pending :=
   ⟨rfl, _, rfl, rfl, rfl⟩
+
+/-- capacity `i64::MAX`, the total at −3 with nothing charged (the state known finding D10 leaves behind at action
+    granularity: `shutdown()` zeroed `weight_used` under a delete that had yet to subtract), one put queued -/
+def c17Negative : State :=
+  { (State.init c17BigCfg 3000000000 [1, 2, 3, 4]) with
+    adm := { max := 9223372036854775807, used := -3, kw := [] },
+    nextId := 3, acks := [.accepted, .accepted, .pending], queue := [(.put 2 2 1 2 20, some 2)] }
+
+/-- **The accounting condition is needed.** `max_weight - weight_used = i64::MAX + 3` overflows in
+    `is_space_available_for`: the worker is dead, the put's acknowledgement stays pending, nothing else has changed. Every
+    other precondition of the worker's step holds (there is no time-to-live and no weight update). The state is NOT
+    reachable at call granularity (`C17_adm_sound_of_inv`); it is at action granularity, through known finding D10
+    (`corpus/C17_D10_space_overflow.in`, replayed on the crate). -/
+theorem C17_counterexample_worker_space_overflow :
+    c17Negative.adm.spaceOverflow = true ∧ ¬ c17Negative.adm.Sound ∧
+    ∃ s2, step c17Negative .worker {} = .ok (s2, .workerPanic .weightOverflow, {}) ∧
+      s2.worker = .dead ∧ s2.acks[2]? = some .pending ∧ s2.adm = c17Negative.adm ∧ s2.store = [] ∧
+      (clientPutW s2 0 3 30 5).2 = .err := by
+  refine ⟨by decide, ?_, _, rfl, rfl, rfl, rfl, rfl, rfl⟩
+  intro hs
+  have := hs.spaceOverflow_false
+  revert this; decide
+
+/-- **Every state that satisfies the Layer A invariant** (`Inv`: every state of a run from `State.init`, Lemmas/Inv.lean)
+    **is sound** as soon as the configured capacity is a non-negative `i64` (Layer G: `0 < total_cache_weight`, an `i64`)
+    and the total is within `i64` (it is one): the total is the sum of the positive charges, hence not negative. -/
+theorem C17_adm_sound_of_inv {s : State} (h : Inv s) (h0 : 0 ≤ s.cfg.maxWeight) (hm : s.cfg.maxWeight ≤ i64Max)
+    (hu : s.adm.used ≤ i64Max) : s.adm.Sound :=
+  ⟨h.kwNoDup, h.sum, h.positive, by rw [h.maxFixed]; exact h0, by rw [h.maxFixed]; exact hm, hu⟩
 
 /-- **Why the side conditions matter.** Once the worker is dead: every send fails (so every later put, delete and
     weight-changing `put_or_update` returns an error), the worker never runs again (queued commands are never
@@ -510,7 +553,9 @@ def Ev.pre (s : State) : Ev → Prop
   | .worker =>
     (∀ id hash w k v t h q, s.queue = (.putTtl id hash w k v t, h) :: q → ∃ x, addTime s.now t = some x) ∧
     (∀ id w h q wk, s.queue = (.updateWeight id w, h) :: q → s.adm.kw.get? id = some wk →
-      inI64 (w - wk.weight) = true ∧ inI64 (s.adm.used + (w - wk.weight)) = true)
+      inI64 (w - wk.weight) = true ∧ inI64 (s.adm.used + (w - wk.weight)) = true) ∧
+    (∀ id hash w k v h q, s.queue = (.put id hash w k v, h) :: q → s.adm.Sound) ∧
+    (∀ id hash w k v t h q, s.queue = (.putTtl id hash w k v t, h) :: q → s.adm.Sound)
   | _ => True
 
 /-- **Summary.** A step whose event meets its preconditions does not panic in the caller, does not report a worker
@@ -525,7 +570,7 @@ theorem C17_step_no_panic (s s' : State) (ev : Ev) (o o' : Oracle) (out : Out) (
   have hoth := fun p => C17_other_calls_no_panic s o p
   cases ev with
   | worker =>
-    obtain ⟨h1, h2, h3⟩ := C17_worker_no_panic s s' o o' out hpre.1 hpre.2 h
+    obtain ⟨h1, h2, h3⟩ := C17_worker_no_panic s s' o o' out hpre.1 hpre.2.1 hpre.2.2.1 hpre.2.2.2 h
     exact ⟨h2, h1, fun _ => h3⟩
   | put c k v =>
     refine ⟨fun p => ?_, nwp rfl, frame rfl⟩
@@ -651,12 +696,23 @@ example :
     (match workerStep s1 {} with | .ok (s', _, _) => s'.worker | .error _ => .dead) = .running ∧
     (match workerStep s2 {} with | .ok (s', _, _) => s'.adm.kw.get? 1 | .error _ => none) =
       some { key := 1, hash := 1, weight := 7 } := by
-  refine ⟨⟨?_, ?_⟩, ⟨?_, ?_⟩, rfl, rfl⟩
+  have hsound : c17Light.adm.Sound := by
+    refine ⟨by show ([1] : List Nat).Nodup; decide, by decide, ?_, by decide, by decide, by decide⟩
+    intro id wk hg
+    have h2 : c17Light.adm.kw = [(1, { key := 1, hash := 1, weight := 5 })] := rfl
+    rw [h2] at hg
+    simp only [AMap.get?] at hg
+    split at hg
+    · cases hg; decide
+    · cases hg
+  refine ⟨⟨?_, ?_, ?_, ?_⟩, ⟨?_, ?_, ?_, ?_⟩, rfl, rfl⟩
   · intro id hash w k v t h q hq
     simp only [List.cons.injEq, Prod.mk.injEq, Cmd.putTtl.injEq] at hq
     obtain ⟨⟨⟨_, _, _, _, _, rfl⟩, _⟩, _⟩ := hq
     exact ⟨4000000000, by decide⟩
   · intro id w h q wk hq; simp at hq
+  · intro id hash w k v h q hq; simp at hq
+  · intro id hash w k v t h q _; exact hsound
   · intro id hash w k v t h q hq; simp at hq
   · intro id w h q wk hq hk
     simp only [List.cons.injEq, Prod.mk.injEq, Cmd.updateWeight.injEq] at hq
@@ -666,6 +722,8 @@ example :
     rw [h2] at hk'
     cases hk'
     decide
+  · intro id hash w k v h q hq; simp at hq
+  · intro id hash w k v t h q hq; simp at hq
 
 /-- `C17_dead_worker_consequences`: a dead worker is reachable (by `C17_counterexample_worker_time_overflow`) -/
 example : ∃ s1 s2 out, step (State.init c17Cfg 3000000000 [1, 2, 3, 4]) (.putWTtl 0 1 10 5 18446744073709551615999999999) {} =
